@@ -57,9 +57,11 @@ def gen_record(rng):
     maybe("u", lambda: rng.choice(NONASCII))
     maybe("b", lambda: rng.random() < 0.5)
     maybe("z", lambda: None, 0.5)
-    maybe("arr", lambda: [rng.choice((0, 1, 2, 3, -1, 2.5, 10, 1)) for _ in range(rng.choice((0, 1, 2, 3, 4, 6)))])
-    maybe("strs", lambda: [rng.choice(WORDS) for _ in range(rng.choice((0, 1, 2, 3, 5)))])
-    maybe("objs", lambda: [gen_eobj(rng) for _ in range(rng.choice((0, 1, 2, 3, 4)))])
+    # now and then a list of more than 20 elements over a small domain (many ties): library sorts change algorithm with size
+    long = rng.random() < 0.06
+    maybe("arr", lambda: [rng.choice((0, 1, 2, 3, -1, 2.5, 10, 1)) for _ in range(rng.choice((0, 1, 2, 3, 4, 6)) if not long else rng.choice((21, 33, 48)))])
+    maybe("strs", lambda: [rng.choice(WORDS) for _ in range(rng.choice((0, 1, 2, 3, 5)) if not long else rng.choice((22, 40)))])
+    maybe("objs", lambda: [gen_eobj(rng) for _ in range(rng.choice((0, 1, 2, 3, 4)) if not long else rng.choice((21, 30, 45)))])
     maybe("obj", lambda: {k: rng.choice((0, 1, 2, 3, -1, 5)) for k in rng.sample(["a", "b", "c", "d", "k1", "z"], rng.choice((0, 1, 2, 3, 4)))})
     maybe("nest", lambda: {"a": {"b": [1, {"c": rng.choice(("deep", 1, None))}]}, "k": rng.choice(WORDS)}, 0.7)
     maybe("nas", lambda: rng.choice(("1", "2.5", "-3", "10e2", "0.001", "007", "1.50")))
@@ -114,8 +116,8 @@ class Scope:
 EXTREME_NUMS = [-(2 ** 63), -(2 ** 63) + 1, -1, 0, 1, 2 ** 63 - 1, 2 ** 63, 2 ** 64 - 1, 2 ** 32, 2 ** 53 + 1, 1e308, -1e308, 5e-324, 0.5,
                 -0.5, 1e19, -1e19, 2.5e-10, -(2 ** 31), 2 ** 31 - 1, 65536, 1e15, 4.5e15]
 KINDS = ["num", "int", "str", "bool", "null", "arr:num", "arr:str", "arr:obj", "arr:bool", "arr:arr", "obj", "any", "nas"]
-VARNAMES = ["v", "w", "acc", "x1", "tmp_2"]
-MACRONAMES = ["m", "f1", "helper"]
+VARNAMES = ["v", "w", "acc", "x1", "tmp_2", "größe", "数"]
+MACRONAMES = ["m", "f1", "helper", "añadir"]
 REGEXES = ["a", "^a", "b$", "a.c", "[a-c]+", "(a)(b)?", "x|y", "[0-9]+", "(é)", "a*", "\\\\d+", "(", "[", "h(el+)o", "^$"]
 FORMATS = ["%Y-%m-%d", "%H:%M:%S", "%Y-%m-%dT%H:%M:%S", "%F %T", "%j", "%Y", "%d/%m/%Y %H:%M", "%%", "%Q", "%", "%Y-%m-%d %z"]
 ENVNAMES = ["JAWK_VF_A", "JAWK_VF_E", "JAWK_VF_MISSING", "JAWK_VF_U"]
